@@ -9,10 +9,10 @@ import (
 	"github.com/jech/storrent/peer"
 )
 
-var vC10Op = []string{"op0", "op1", "op2", "op3"}
-var vC10Ix = []string{"ix0", "ix1", "ix2", "ix3"}
-var vC10Pr = []string{"pr0", "pr1", "pr2", "pr3"}
-var vC10Wt = []string{"wt0", "wt1", "wt2", "wt3"}
+var vC10Op = []string{"op0", "op1", "op2", "op3", "op4", "op5"}
+var vC10Ix = []string{"ix0", "ix1", "ix2", "ix3", "ix4", "ix5"}
+var vC10Pr = []string{"pr0", "pr1", "pr2", "pr3", "pr4", "pr5"}
+var vC10Wt = []string{"wt0", "wt1", "wt2", "wt3", "wt4", "wt5"}
 
 func vClosed(c <-chan struct{}) bool {
 	select {
